@@ -20,6 +20,7 @@ id, and that accepted connections are tagged Inbound and dialed ones Outbound al
 Connection.origin. The loser's clean-up cannot disturb the winner (C04.2d / C04.4 re-evaluated) and nothing re-dials a quiet pair: dials
 start only from the application's ConnectRequest and the periodic connectivity check, never from a connection ending.
 Decides the table and its wiring for all paths; convergence over time is dynamic.
+The exit path of the connection handler (where the loser of a tie-break ends) contains no panic-capable construct.
 """
 TRUSTED = ["derived Ord on PeerId([u8;32]) is a total order shared by both sides"]
 NOT_DECIDED = ["quiescence ('no further events once the network is quiet')", "RPC success after convergence",
@@ -309,3 +310,23 @@ def run(cx):
                 ob.require(any(x[0] == "variant" and x[2] == "ConnectRequest" for x in walk(t)), "dial-source/explicit-is-connect-request",
                            f"a dial in the manager loop is started with address {show(t)[:80]} (not the payload of a ConnectRequest)", c.body.path, c.body.loc(c.bb))
 
+
+    with cx.ob("C05.8", "R-PANIC", "the loser's handler ends quietly: between leaving its loop and returning, the connection handler executes no panic-capable construct of its own (a panic there is re-raised by the manager's join arm and takes the surviving connection down with the whole network)") as ob:
+        RH_ = "anemo::network::request_handler::InboundRequestHandler"
+        co = cx.coroutine(f"{RH_}::start")
+        cyc = set(co.cyclic_blocks())
+        ob.floor(len(cyc), 1, "handler loop blocks")
+        after = set()
+        for x in cyc:
+            after |= co.reachable_from(x)
+        rets = set(co.return_blocks())
+        ex = {y for y in after - cyc if not (co.reachable_from(y) & cyc) and (co.reachable_from(y) & rets)}
+        ob.floor(len(ex), 1, "blocks of the handler's exit path")
+        region = set()
+        for y in ex:
+            region |= co.reachable_from(y)
+        _, sites = panic_sites(prog, [f"{RH_}::start"], crates=["anemo"])
+        ob.count(len(region))
+        for s in sites:
+            if s["body"] == co.path and s["bb"] in region and not static_bounds_ok(s, co):
+                ob.fail("refuted", f"handler-exit/panic/{s['what']}", f"panic-capable construct `{s['what']}` on the connection handler's exit path (after its loop)", co.path, co.loc(s["bb"]))
